@@ -234,8 +234,6 @@ def consistent(f, path, decs):
         subj = peel(subj)
         if subj[0] != 'call' or f.loops_containing(subj[3]) or f.loops_containing(b):
             continue
-        if subj[1].split('::')[-1] in ('load', 'get', 'is_empty', 'len', 'borrow', 'contains', 'is_active', 'next'):
-            continue
         (_, a), = path_atoms(f, path, [d])
         if a[0] not in ('is', 'bool'):
             continue
@@ -449,3 +447,88 @@ def option_state(a):
         v = a[2] if isinstance(a[2], str) else a[2][0]
         return ('none' if v == 'Some' else 'some', a[1])
     return None
+
+
+def path_truth(f, path, decs, tree):
+    """truth value of a boolean tree on this path: a constant, or a value the path branched on (None if unknown)"""
+    if tree is None:
+        return None
+    t = peel(tree)
+    if t[0] == 'int':
+        return bool(t[1])
+    neg = False
+    while t[0] == 'un' and t[1] == 'Not':
+        t = peel(t[2]); neg = not neg
+    c = canon(t)
+    for _, a in path_atoms(f, path, decs):
+        if a[0] == 'bool' and a[1] == c:
+            return a[2] != neg
+    return None
+
+
+# ---------------------------------------------------------------- manual counting loops
+
+def counting_loops(f):
+    """`while` loops driven by an integer induction variable: list of dicts
+         var (local), init (tree), step (+1/-1), stay (op, bound tree): condition under which the body runs, written `var op bound`,
+         header, exits_only_at_guard (no break/return inside the body)"""
+    out = []
+    for h, body in f.loops().items():
+        # the guard: a switch in the loop with one edge leaving it
+        guards = []
+        other_exit = False
+        for u in sorted(body):
+            t = f.term(u)
+            outs = [v for v in f.succs(u) if v not in body]
+            if not outs:
+                continue
+            if t['k'] == 'switch' and len(outs) == 1:
+                guards.append((u, outs[0]))
+            else:
+                # leaving towards a diverging block (panic) is not an exit of the iteration
+                if not all(v not in f.can_reach_return() for v in outs):
+                    other_exit = True
+        guards = [(u, o) for (u, o) in guards if o in f.can_reach_return()]
+        if len(guards) != 1:
+            continue
+        gu, gexit = guards[0]
+        stay = [v for v in f.succs(gu) if v in body]
+        if len(stay) != 1:
+            continue
+        atoms = [a for (sb, a) in f.guard_atoms(stay[0]) if sb == gu]
+        if not atoms or atoms[0][0] != 'cmp':
+            continue
+        _, op, l, r = atoms[0]
+        defs = f._defs()
+        for v in range(f.argc + 1, len(f.locals)):
+            if f.local_ty(v) not in ('usize', 'u32', 'u64', 'isize', 'i32', 'i64'):
+                continue
+            dv = [d for d in defs if d[0] == v and not d[3]]
+            inside = [d for d in dv if d[1] in body]
+            outside = [d for d in dv if d[1] not in body]
+            if len(inside) != 1 or len(outside) != 1 or inside[0][2] == 'T' or outside[0][2] == 'T':
+                continue
+            ub, ui = inside[0][1], inside[0][2]
+            upd = peel(f.expr_rvalue(f.stmts(ub)[ui]['r'], ub, ui))
+            if upd[0] == 'field' and upd[1][0] == 'bin':
+                upd = upd[1]
+            if not (upd[0] == 'bin' and upd[3] == ('int', 1) and upd[1].replace('WithOverflow', '') in ('Add', 'Sub')):
+                continue
+            base = peel(upd[2])
+            name = f.local_name(v)
+            is_v = (base[0] == 'phi' and base[2] == name) or base == ('local', v) or (base[0] == 'var' and base[1] == v)
+            if not is_v:
+                continue
+            # the guard compares this variable
+            def mentions(t):
+                t = peel_c(t) if False else t
+                return any((x[0] == 'phi') or x == ('local', v) for x in walk(t))
+            ob, oi = outside[0][1], outside[0][2]
+            init = peel(f.expr_rvalue(f.stmts(ob)[oi]['r'], ob, oi))
+            lv, rv = mentions(l), mentions(r)
+            if lv == rv:
+                continue
+            sop, bound = (op, r) if lv else (SWAP[op], l)
+            out.append({'var': v, 'name': name, 'init': init, 'step': 1 if upd[1].startswith('Add') else -1, 'stay': (sop, bound),
+                        'header': h, 'body': body, 'exits_only_at_guard': not other_exit, 'guard_block': gu})
+    return out
